@@ -44,6 +44,18 @@ class AbsExc(Exception):
         self.tag = tag
 
 
+class FrozenAbsExc(AbsExc):
+    """An exception object that rejects attribute assignment (a frozen-dataclass exception, a read-only `exc_info` property,
+    a custom __setattr__): the backward-compatible `exc.exc_info = ...` is best effort and must not end the handling."""
+
+    def __init__(self, tag):
+        Exception.__init__(self, 'abstract')
+        Exception.__setattr__(self, 'tag', tag)
+
+    def __setattr__(self, name, value):
+        raise AttributeError("cannot assign to field %r" % (name,))
+
+
 def tag_term(e):
     t = e.tag
     return t.t if isinstance(t, SInt) else z3.IntVal(t)
@@ -146,11 +158,13 @@ class Chain(Unit):
         self.frame = None
         n = E.new_int('n_handlers', 0, None)
         conn = harness_connection()
-        e0 = AbsExc(0)
+        # any exception object may arrive, also one that cannot take new attributes (seeded change C14-r16)
+        frozen = bool(E.fork(2, 'exception-rejects-attributes'))
+        e0 = (FrozenAbsExc if frozen else AbsExc)(0)
         # final handler: None / False / function that returns / function that raises
         fk = E.fork(4, 'final-handler')
         final_calls = []
-        final_exc = AbsExc(E.new_int('final-raised'))
+        final_exc = (FrozenAbsExc if frozen else AbsExc)(E.new_int('final-raised'))
 
         # a final handler may start a new connection on the same object ("unless a handler has already started a new
         # one"): the REAL _connect runs (socket layer modelled) - whatever it resets, the record of the exception that ended
@@ -338,6 +352,13 @@ class E3(Exception):
     pass
 
 
+class FrozenE1(E1):
+    """A user exception that rejects attribute assignment (as a frozen dataclass deriving from Exception does)."""
+
+    def __setattr__(self, name, value):
+        raise AttributeError('cannot assign to field %r' % (name,))
+
+
 def replay_chain(rng):
     """Reference fold (written from the statement) against the real _handle_exception."""
     conn = native_connection()
@@ -381,7 +402,7 @@ def replay_chain(rng):
     disc = []
     conn.disconnect = lambda immediate=False: disc.append(immediate)
     conn.exception = conn.exc_info = None
-    e0 = rng.choice([E1, E2, E3])('original')
+    e0 = rng.choice([E1, E2, E3, FrozenE1])('original')
     k, v = native_call(conn._handle_exception, e0, (type(e0), e0, None))
     # reference fold
     cur, caught, want = e0, False, []
